@@ -271,14 +271,24 @@ def min_gap(X, Z):
     return float(D.min())
 
 
-def qf_tol(kappa, krec, gap):
-    """accuracy of q(f) relative to its scale - one dense solve (DESIGN 1.4): 1e3 eps kappa clipped to [1e-10, 1e-6].  Kernels
-    with a kink at r = 0 lose eps / r in the distance of nearly coincident rows (quadratic expansion): 1e-8 when all distinct
-    rows are >= 1e-4 apart (rows here are lattice points or 4-significant-digit floats), the 1e-5 floor of C14 otherwise"""
-    t = min(max(1e3 * EPS * kappa, 1e-10), 1e-6)
+def kernel_floor(krec, gap):
+    """Accuracy floor of the library's kernel matrices relative to their scale.  Kernels with a kink at r = 0 lose accuracy where
+    the quadratic-expansion distance is (nearly) zero: d^2 carries rounding noise ~ eps |x / l|^2, so r = sqrt(d^2) is off by up
+    to ~1e-7 - also on the *diagonal* of K(Z, Z) / K(X, X) whenever a hyper-parameter requires grad (the exact zeroing of the
+    diagonal is skipped then), i.e. always in an objective.  Matern-1/2 is linear in r there: 1e-5 (the floor C14 uses);
+    Matern-3/2, -5/2 are quadratic in r: 1e-8 when all distinct rows are >= 1e-4 apart (rows are lattice points or
+    4-significant-digit floats), 1e-5 otherwise.  Smooth kernels: no floor."""
     if kern.smooth_at_zero(krec):
-        return t
-    return max(t, 1e-8 if gap >= 1e-4 else 1e-5)
+        return 0.0
+    if any(l["k"] == "Matern0.5" for l in kern.leaves(krec)) or gap < 1e-4:
+        return 1e-5
+    return 1e-8
+
+
+def qf_tol(kappa, krec, gap):
+    """accuracy of q(f) relative to its scale - one dense solve (DESIGN 1.4): 1e3 eps kappa clipped to [1e-10, 1e-6], at least
+    the accuracy of the kernel matrices"""
+    return max(min(max(1e3 * EPS * kappa, 1e-10), 1e-6), kernel_floor(krec, gap))
 
 
 def log_prior_sum(case):
@@ -733,8 +743,8 @@ def run_ngd(case, ctx: Ctx):
     # tolerance: 1e-8 (DESIGN; the probe sits at 5e-16) scaled by the conditioning of the quantities inverted on the way
     kap = max(kS, blk.kappa if not whitened else 1.0) * max(1.0, blk.kappa ** 0.5)
     tol = min(max(1e3 * EPS * kap, 1e-10), 1e-5)
-    if not kern.smooth_at_zero(r["kernel"]):
-        tol = max(tol, 1e-8)
+    floor = kernel_floor(r["kernel"], min_gap(Xb, T(r["Z"], dtype=F64)))
+    tol = max(tol, floor * max(1.0, blk.kappa ** 0.5))
     sc = scale_of(want[0], want[1], th0[0], th0[1], (N / B) * thl[0], (N / B) * thl[1])
     ctx.close("natural_vec", g1, want[0], rtol=tol, atol=tol, scale=sc)
     ctx.close("natural_mat", g2, want[1], rtol=tol, atol=tol, scale=sc)
@@ -747,7 +757,7 @@ def run_ngd(case, ctx: Ctx):
         m1 = VO.mv(S1, g1)
         # (theta_0 cancels in the step: the decoded result carries the rounding of theta_0 relative to theta_1)
         kk = max(VO.cond(Ss), kap) * max(1.0, sc / scale_of(want[0], want[1]))
-        t2 = min(max(1e3 * EPS * kk, 1e-8), 1e-5)
+        t2 = max(min(max(1e3 * EPS * kk, 1e-8), 1e-5), floor * max(1.0, blk.kappa ** 0.5))
         sc2 = scale_of(ms, Ss)
         ctx.close("decoded_mean=m*", m1, ms, rtol=t2, atol=t2, scale=sc2)
         ctx.close("decoded_cov=S*", S1, Ss, rtol=t2, atol=t2, scale=sc2)
